@@ -121,10 +121,10 @@ SPECS["C10"] = dict(
 
 SPECS["C12"] = dict(
     level="exploration",
-    technique="stateful property-based testing (rapid) of the byte-slice and ring-buffer pools against a memory-range ownership ledger with canaries; concurrent variant with generated worker scripts",
+    technique="stateful property-based testing (rapid) of the byte-slice and ring-buffer pools against a memory-range ownership ledger with canaries; concurrent variant with generated worker scripts; engine sessions with application-held pool slices",
     rule="a case is a generated sequence of Get(size)/Put(exact)/Put(re-sliced tail while the head stays owned)/Put(foreign odd-capacity slice carved from a canary-filled arena)/"
-         "Put(empty)/runtime.GC on a fresh Pool or the global pool (sizes 0..2^20 biased to 2^k+-2), a generated multi-goroutine Get/Put script, or a mixed ring-pool/byte-slice-pool "
-         "sequence with ring writes that force growth; after every step all handed-out ranges are pairwise disjoint, inside what was returned, and their canaries intact; "
+         "Put(empty)/runtime.GC on a fresh Pool or the global pool (sizes 0..2^20 biased to 2^k+-2), a generated multi-goroutine Get/Put script, a mixed ring-pool/byte-slice-pool "
+         "sequence with ring writes that force growth (global pool or a pool of its own, with 42001-return bursts that make the pool calibrate itself), or an engine session whose handlers run generated Peek/Discard/Next/Read patterns over shaped arrivals while the application holds canary-filled pool slices of the same size classes; after every step all handed-out ranges are pairwise disjoint, inside what was returned, and their canaries intact; "
          "non-trivial = some Get was served from recycled memory (address seen before); distinct = distinct history/script",
     assumptions=["the harness keeps every slice it ever saw reachable, so the allocator cannot legitimately reuse an address", "sizes above 2^20 are covered arithmetically by C20, not by allocation"],
     overlay=["verifx/c12", "verifx/vio", "verifx/fx"],
@@ -210,7 +210,7 @@ SPECS["C15"] = dict(
 SPECS["C17"] = dict(
     level="exploration",
     technique="property-based testing (rapid): round-trip of generated addresses through the kernel socket-address form; engine-level sessions compare reported addresses with the peers' own",
-    rule="a case is an IP (4-byte, 16-byte v4-mapped, random IPv6, link-local, well-known) x port 0..65535 x zone ('', existing interface names, interface indices, other numbers up to 0xFFFFFE) x tcp/udp x entry point; "
+    rule="a case is an IP (4-byte, 16-byte v4-mapped, random IPv6, IPv6 built group-wise from boundary values - exact and near-miss special prefixes -, link-local, well-known) x port 0..65535 x zone ('', existing interface names, interface indices, other numbers up to 0xFFFFFE) x tcp/udp x entry point; "
          "or an invalid one (IP of 0..20 bytes except 4/16, unsupported Unix network, unknown net.Addr type) which must yield nil without panic; or a Unix path; "
          "non-trivial = IPv6 address with non-empty zone, or an invalid input; distinct = distinct input",
     assumptions=["zone names that are neither an existing interface nor a decimal number have no kernel representation and are not generated", "numeric zones are generated in canonical decimal form below 0xFFFFFF (the parser's cap)"],
@@ -331,7 +331,7 @@ LIFE_OVERLAY = ["verifx/lifex"] + FX_OVERLAY
 SPECS["C04"] = dict(
     level="exploration",
     technique="property-based testing of real engine sessions (rapid): generated connection histories with racing close causes, a second wave of connections re-using descriptor numbers and stale requests, judged by a life-cycle automaton over the recorded callback log",
-    rule="a case is one engine configuration with 1..5 connection histories (OnOpen behaviour none/reply/Close action/Close()/EventLoop.Close; steps over peer data, peer close/reset/half-close, handler directives executed inside OnTraffic - Close action, Close(), CloseWithCallback, EventLoop.Close, write to a reset peer -, "
+    rule="a case is one engine configuration with 1..5 connection histories (OnOpen behaviour none/reply/Close action/Close()/EventLoop.Close; steps over peer data, peer close/reset/half-close, handler directives executed inside OnTraffic - Close action, Close(), CloseWithCallback, EventLoop.Close, Close() followed by a task that puts readable bait on the released descriptor number, write to a reset peer -, "
          "Wake/Close/CloseWithCallback/AsyncWrite from other goroutines, bursts of 2..3 causes fired concurrently; OnClose behaviour none/write/Close action), then 0..4 fresh connections that get the freed descriptor numbers, then stale Wake/Close/CloseWithCallback/AsyncWrite(v) on the closed ones; "
          "oracle: Open (Traffic)* Close per connection, Close iff Open, identity/loop/goroutine of every callback, OnClose error nil only with a local cause and non-nil only with a peer cause issued, stale async writes complete with net.ErrClosed, second-wave connections see no traffic, bytes or close they did not cause, "
          "CountConnections = opened - closed at quiescent points; non-trivial = a connection with a close requested from inside a callback or with concurrently fired causes; distinct = distinct (configuration, connection history)",
@@ -345,10 +345,10 @@ SPECS["C04"] = dict(
 
 SPECS["C07"] = dict(
     level="exploration",
-    technique="property-based testing of real engine sessions (rapid): the C04 history generator plus Dup calls, judged by a before/after descriptor-table comparison, canary socket pairs placed on just-released descriptor numbers, and surviving user-owned duplicates; shutdown under a connect flood",
+    technique="property-based testing of real engine sessions (rapid): the C04 history generator plus Dup calls, judged by a before/after descriptor-table comparison, canary socket pairs placed on just-released descriptor numbers, surviving user-owned duplicates and the contents of the epoll sets; shutdown under a connect flood and under concurrent registrations",
     rule="a case is a C04 history (every close cause, closes from inside callbacks, racing causes, second wave, stale requests) with Conn.Dup / Engine.Dup calls, one engine start/stop per case; oracles: /proc/self/fd after Run/Client.Stop returned equals the table before (sockets, epoll, eventfd), "
-         "Unix socket files are gone, descriptors returned by Dup are still open on the same object, and canary socket pairs placed on descriptor numbers right after the framework released them (on the loop goroutine after EventLoop.Close, by another goroutine after OnClose) were neither read, written nor closed by anyone else; "
-         "second generator: 1..8 dialers connect continuously while Stop is requested after a drawn delay; non-trivial = a session with a close requested from inside a callback or racing causes; distinct = distinct case",
+         "Unix socket files are gone, descriptors returned by Dup are still open on the same object, and canary socket pairs placed on descriptor numbers right after the framework released them (on the loop goroutine after EventLoop.Close, inside a CloseWithCallback callback, by a task queued behind Conn.Close, by another goroutine after OnClose) were neither read, written nor closed by anyone else, and the socket of a closed connection that the user keeps alive through Conn.Dup is in no epoll set (/proc/self/fdinfo); "
+         "second generator: 1..8 dialers connect continuously while Stop is requested after a drawn delay; third generator: 1..6 goroutines call Engine.Register / EventLoop.Enroll while Stop takes effect (every accepted call delivers exactly one result, the descriptor table returns to its state); non-trivial = a session with a close requested from inside a callback or racing causes; distinct = distinct case",
     assumptions=ENGINE_ASSUME + ["descriptor numbers are assigned lowest-free-first by the kernel, which is what puts a canary on a just-released number"],
     overlay=["verifx/c07"] + LIFE_OVERLAY,
     max_parallel=12,
@@ -363,7 +363,7 @@ SPECS["C06"] = dict(
     level="exploration",
     technique="property-based testing of real engine sessions (rapid): generated shutdown source, moment and concurrent activity, judged by completion/finality oracles over the callback record",
     rule="a case is one engine configuration (incl. Rotate with 2..3 listeners, ticker with a drawn interval and a drawn time spent inside OnTick) with 0..60 (thorough 200) idle connections, 0..3 connections whose peer keeps sending, 0..2 with megabytes of unsent output, "
-         "0..4 goroutines connecting and 0..3 issuing AsyncWrite/Wake continuously; the shutdown source is Engine.Stop, package Stop, a Shutdown action from OnOpen/OnTraffic/OnClose/OnTick/a Wake-induced OnTraffic, OnBoot, or Client.Stop, requested after a drawn delay, optionally behind a backlog of 100..1500 queued async requests; "
+         "0..4 goroutines connecting and 0..3 issuing AsyncWrite/Wake continuously; the shutdown source is Engine.Stop, package Stop, a Shutdown action from OnOpen/OnTraffic/OnClose/OnTick/a Wake-induced OnTraffic/an OnTraffic that has just closed its own connection (optionally every OnClose answers Shutdown once the shutdown is under way), OnBoot, or Client.Stop, requested after a drawn delay, optionally behind a backlog of 100..1500 queued async requests; "
          "oracle: Run/Rotate/Client.Stop returns nil within the bound, every connection that saw OnOpen saw exactly one OnClose by then, OnShutdown ran exactly once, no callback (incl. a still-running OnTick) is observed after the return, the listen address refuses connections; OnBoot: immediate return, nothing started; "
          "non-trivial = shutdown requested while a connection had unread/unsent data or connects were in flight; distinct = distinct case",
     assumptions=ENGINE_ASSUME,
@@ -378,7 +378,7 @@ SPECS["C08"] = dict(
     level="exploration",
     technique="property-based testing of real UDP engine sessions (rapid): generated datagram sizes, sender concurrency and handler consumption/reply scripts against exact per-datagram oracles",
     rule="a case is a UDP listener (udp4, udp6 when ::1 exists; 1..4 loops; read buffer 1..64 KiB; default and poll_opt builds) with 1..6 sender sockets, each sending 1..12 self-describing datagrams of sizes from {0,1,2,7,8,9,100,1023,1471-1473,cap/2,cap-1,cap,40000,65506,65507} "
-         "(windowed so that the kernel never drops; datagrams too short for a header one at a time), and a cyclic handler script per event: consume all/part/none/one byte, Write a reply (echo or generated payload), optionally SendTo a third socket (address in 4- or 16-byte form); "
+         "(windowed so that the kernel never drops; datagrams too short for a header one at a time), and a cyclic handler script per event: consume all/part/none/one byte, Write a reply (echo or generated payload), optionally SendTo a third socket; in raw cases the handler answers with exactly the peeked bytes (zero copy, possibly none) through Write or AsyncWrite before consuming them (address in 4- or 16-byte form); "
          "oracle: every OnTraffic offers exactly one sent datagram (length and bytes) with RemoteAddr = its sender, each datagram produces exactly one event, each Write exactly one reply datagram with exactly those bytes at exactly that sender, SendTo exactly one at the third socket, nobody receives anything else; "
          "non-trivial = an event that consumed only part/none of its datagram was followed by another event on the same loop; distinct = distinct case",
     assumptions=["loop-back UDP with a bounded in-flight volume does not drop datagrams (a missing reply within 3 s is therefore a lost event)", "payloads above the read-buffer size are outside the statement"],
@@ -393,8 +393,8 @@ SPECS["C19"] = dict(
     level="exploration",
     technique="stateful property-based testing (rapid) of the control API against a state x call -> allowed-results table, with calls from several goroutines before start, while running, during shutdown and after it",
     rule="a case is a server configuration, calls on the zero-value handle, 1..4 goroutines each with up to 5 calls on the running engine (Validate, CountConnections, Dup, DupListener right/wrong, Register with conn / closed conn / address / unreachable address / nothing, "
-         "EventLoop.Register/Enroll/Execute with nil and valid arguments), a Stop with a live or an already expired context, 0..3 goroutines with calls fired right after the request (one connection may take 700 ms in OnClose), and calls after the shutdown; "
-         "oracle: the allowed errors per state, CountConnections -1 outside the running state, one result per Register/Enroll that is a usable connection (a byte echoes) or an error, runnables run once, Stop(nil) only when every opened connection has been closed and OnShutdown ran, Stop(expired) returns the context error and Run still returns, a second Stop reports in-shutdown; "
+         "EventLoop.Register/Enroll/Execute with nil and valid arguments), a shutdown requested by Stop with a live or an already expired context or by a connection registered through Engine.Register/EventLoop.Enroll whose OnOpen/OnClose answers Shutdown, 0..3 goroutines with calls fired right after the request (one connection may take 700 ms in OnClose), and calls after the shutdown; "
+         "oracle: the allowed errors per state, CountConnections -1 outside the running state, one result per accepted Register/Enroll call - also when it was accepted while the engine was shutting down - that is a usable connection (a byte echoes) or an error, runnables run once, Stop(nil) only when every opened connection has been closed and OnShutdown ran, Stop(expired) returns the context error and Run still returns, a second Stop reports in-shutdown; "
          "non-trivial = a case with calls issued between the shutdown request and its completion; distinct = distinct case",
     assumptions=ENGINE_ASSUME + ["Engine.Register is not combined with Round-Robin load balancing (documented data race)", "client handles report the empty-engine error by construction and are not exercised here"],
     overlay=["verifx/c19"] + FX_OVERLAY,
@@ -426,7 +426,7 @@ SPECS["C18"] = dict(
     rule="a case is a configuration (LT/ET x reactor/reuseport x tcp/unix), a fault (site = caller function x system call on the I/O path; errno from a realistic table; the k-th call on the victim's descriptor, k up to 2 quick / 8 thorough) and optionally a second fault, "
          "with 2..4 bystander connections carrying verified echo traffic (Write/Writev/AsyncWrite handlers); fatal faults (ECONNRESET/EPIPE/ETIMEDOUT/ENOTCONN on read/write/writev, ENOMEM/ENOSPC on epoll_ctl) must close exactly the victim with one OnClose carrying a non-nil error (none if never opened), "
          "transient ones (EAGAIN in LT mode, EINTR on epoll_wait, EINTR/ECONNABORTED/ECONNRESET on accept) must be invisible, failures of epoll_ctl DEL / close(2) while the victim is being closed change nothing else; afterwards a stale AsyncWrite on the victim completes with net.ErrClosed, a fresh connection echoes, "
-         "bystanders echo exactly and saw no OnClose, no panic, and the ledger shows every accepted descriptor closed exactly once and no I/O on a closed one; non-trivial = the fault was actually delivered (the k-th call happened); distinct = distinct (configuration, fault plan)",
+         "bystanders echo exactly and saw no OnClose, no panic, and the ledger shows every accepted descriptor closed exactly once and no I/O on a closed one; datagram sites: the k-th recvfrom of the UDP listener / sendto of a reply fails while 1..4 senders run stop-and-wait (no panic, every sender still served, no datagram lost or duplicated by a failed recvfrom, a failed sendto reported to exactly the Write that made it); non-trivial = the fault was actually delivered (the k-th call happened); distinct = distinct (configuration, fault plan)",
     assumptions=["faults are returned instead of performing the system call (close(2) is performed and then reported as failed)", "EAGAIN is injected in LT mode only (in ET no new edge would follow a faked EAGAIN)", "engine-level failures such as EMFILE on accept stop the engine by design and are not injected"],
     overlay=["verifx/c18", "internal/vshim", "pkg/netpoll/zz_verif_vshim_poll_opt.go"] + FX_OVERLAY,
     instrument=SHIM_INSTR,
